@@ -133,6 +133,7 @@ def intstr_term(n):
     equal to the decimal literal for the small values that occur as constants (-1, 0)."""
     vc = cur()
     n = SInt.of(n)
+    vc.ikey(n, 'pack')        # str(n) names a pack: n is an instantiation point of the clauses quantified over pack ids
     c = conc(n)
     if c is not None:
         lit = z3.StringVal(str(c))
